@@ -1,30 +1,35 @@
 /-
-  C14, part 3 — the chain-to-matching (T-join) lemma and the unconditional MWPM statement.
+  C14, part 3 — the chain-to-matching (T-join) lemma and the MWPM statements without `ChainBound`.
 
   * `chain_induces_matching_generic`: in ANY finite multigraph with a symmetric `dist` obeying the
     triangle inequality and `dist ≤ 1` on edges, the odd-degree vertices of ANY edge list `E` have a
     perfect matching (in the complete graph on them) of total `dist ≤ |E|`.  (Lemmas/TJoin.lean;
     edge-by-edge induction, core Lean.)
-  * `chain_induces_matching_toric`: for the toric code of ANY size R, C ≥ 2 and ANY error `e`, the
-    defects of either lattice have a perfect matching in the decoder's graph whose total decoder
-    distance is at most the weight of the X-component (primal lattice) / Z-component (dual lattice)
-    of `e`, and their number is even.  Every qubit is an edge between the two plaquettes of that
-    lattice adjacent to it, defects = odd-degree plaquettes, the decoder's distance is the graph
-    metric of the torus.
-  * `toric_mwpm_corrects`: hence for ALL sizes the modelled toric MWPM decoder corrects every error
-    whose X-component and Z-component EACH have weight ≤ t = ⌊(d−1)/2⌋, for ANY minimum-weight
-    perfect matchings of the two modelled graphs.  `ChainBound` is no longer a hypothesis.
+  * `chain_induces_matching_boundary_generic`: the same for a graph with a boundary, delivered in the
+    decoder's shape: real odd-degree vertices `ds`, virtual nodes `vnodes ∋ vp d`, edges `(d, vp d)`,
+    all pairs of `ds`, all pairs of `vnodes` at weight 0, `|ds| + |vnodes|` even.
+  * `chain_induces_matching_toric` / `chain_induces_matching_planar`: for the toric / planar code of ANY
+    size R, C ≥ 2 and ANY error `e`, the decoder's graph for the defects of either type has a perfect
+    matching whose total decoder distance is at most the weight of the X-component (primal) /
+    Z-component (dual) of `e`.  Every qubit is an edge between the two plaquettes of that type
+    adjacent to it (one of them virtual for a planar boundary qubit), defects = (real) odd-degree
+    plaquettes, the decoder's distance is the graph metric.
+  * `toric_mwpm_corrects`, `planar_mwpm_corrects`, `planar_decode_corrects`: hence for ALL sizes the
+    modelled MWPM decoders correct every error whose X-component and Z-component EACH have weight
+    ≤ t = ⌊(d−1)/2⌋, for ANY minimum-weight perfect matchings of the two modelled graphs.
+    `ChainBound` is no longer a hypothesis.
 
-  External facts, each a clearly named hypothesis of `toric_mwpm_corrects`:
-    h_path_syndrome : ToricL.Spec R C   — C15 toric `path_syndrome_vector_real` (+ C07 index nodup)
-    h_path_weight                        — C15 toric `path_weight` (weight of a path ≤ decoder distance)
-    h_css                                — C07: toric generators are X-type or Z-type
+  External facts, each a clearly named hypothesis of the `…_mwpm_corrects` theorems:
+    h_path_syndrome : ToricL.Spec / PlanarL.Spec — C15 `path_syndrome_vector(_real)`, `virtualPlaquette_spec`
+                                           (+ C07 index-list nodup)
+    h_path_weight                        — C15 `path_weight` (weight of a path ≤ decoder distance)
+    h_css                                — C07: generators are X-type or Z-type
     h_distance : DistHyp …               — C08: operators lighter than d commuting with S commute with L
-    h_min0, h_min1 : MinWeightPM …       — C13: the matching returned is a minimum-weight perfect
+    h_min… : MinWeightPM / MinWeightPMPlanar — C13: the matching returned is a minimum-weight perfect
                                            matching of the modelled graph (`NxContract` ⇒
                                            `mwpmNetworkx_min_weight_perfect`)
-  C02's `toric_mwpm_syndrome` (recovery reproduces the syndrome) is imported and used as proved.
-  The planar statement stays in the `STATED, NOT PROVED:` block of Props/C14/Mwpm.lean.
+  C02's `toric_mwpm_syndrome` / `planar_mwpm_syndrome` (recovery reproduces the syndrome) are imported
+  and used as proved.
 -/
 import QecVerif.Lemmas.TJoin
 import QecVerif.Props.C02
@@ -210,6 +215,178 @@ theorem toric_mwpm_corrects (R C : Int) (hR : 2 ≤ R) (hC : 2 ≤ C)
     mwpm_corrects_of_chain_bound_partial _ L _ d (ToricL.stabilizers_length R C) hL h_css h_distance hd1
       e r he hrlen hrs heX heZ hX hZ⟩
 
+/-! ### the planar code -/
+
+open Qec.ChainPlanar in
+/-- **chain_induces_matching (planar)**: for ANY error `e` on the R×C planar code and either plaquette
+    type `t` (`true`: primal plaquettes / X-component, `false`: dual / Z-component) the decoder's graph
+    for the defects of that type — real nodes = the defects, the NEAREST virtual plaquette of each (as a
+    set), the extra virtual node when the node count is odd; edges defect–own virtual plaquette and all
+    defect pairs weighted by `distance`, all virtual pairs at weight 0 (`distance` is 0 there) — has a
+    perfect matching of total weight at most the weight of that component of `e`.
+    (The boundary is one extra vertex of the plaquette graph; a chain segment ending on the boundary is
+    at least as long as the distance to the nearest virtual plaquette of its defect; two defects sent
+    to the same virtual plaquette are paired with each other instead.) -/
+theorem chain_induces_matching_planar (R C : Int) (hR : 2 ≤ R) (hC : 2 ≤ C)
+    (h_path_syndrome : PlanarL.Spec R C) (t : Bool) (e : BVec) (he : e.length = 2 * PlanarL.nq R C) :
+    ∃ M : List (Idx2 × Idx2),
+      isPerfectMatchingOfGraph (planarNodes R C t (planarDefects R C (synd (Planar.stabilizers R C) e) t))
+        (planarEdges R C t (planarDefects R C (synd (Planar.stabilizers R C) e) t)) M = true ∧
+      cost (Dec.distT R C) M ≤ bsfWt (partP t e) :=
+  chain_matching_planar R C hR hC h_path_syndrome t e he
+
+/-- the generic lemma behind it: T-join in a graph with a boundary, in the decoder's shape -/
+theorem chain_induces_matching_boundary_generic {V : Type} [DecidableEq V]
+    (ρ : V → Bool) (vp : V → V) (bd : V → Nat) (d dist2 : V → V → Nat)
+    (hvp : ∀ a, ρ a = true → ρ (vp a) = false) (hsymm : ∀ a b, d a b = d b a)
+    (hd_vp : ∀ a, ρ a = true → d a (vp a) = bd a)
+    (hd_same : ∀ a b, ρ a = true → ρ b = true → vp a = vp b → d a b ≤ bd a + bd b)
+    (hd_le : ∀ a b, ρ a = true → ρ b = true → d a b ≤ dist2 a b)
+    (h2 : ∀ a b, dist2 a b = dist2 b a) (htri2 : ∀ a b c, dist2 a c ≤ dist2 a b + dist2 b c)
+    (hlip : ∀ a b, bd a ≤ dist2 a b + bd b)
+    (E : List (V × V)) (hadj : ∀ e ∈ E, pd ρ bd dist2 e.1 e.2 ≤ 1)
+    (ds : List V) (hds : ds.Nodup) (hodd : ∀ v, v ∈ ds ↔ ρ v = true ∧ deg E v % 2 = 1)
+    (vnodes : List V) (hvn : vnodes.Nodup) (hvirt : ∀ w ∈ vnodes, ρ w = false)
+    (hvpmem : ∀ a ∈ ds, vp a ∈ vnodes) (hpar : (ds.length + vnodes.length) % 2 = 0)
+    (hd_out : ∀ x ∈ vnodes, ∀ y ∈ vnodes, d x y = 0) :
+    ∃ M', isPerfectMatchingOfGraph (ds ++ vnodes)
+        (ds.map (fun a => (a, vp a)) ++ pairsOf ds ++ pairsOf vnodes) M' = true ∧
+      cost d M' ≤ E.length :=
+  tjoin_boundary ρ vp bd d dist2 hvp hsymm hd_vp hd_same hd_le h2 htri2 hlip E hadj ds hds hodd vnodes hvn
+    hvirt hvpmem hpar hd_out
+
+/-- what C13 delivers for the modelled planar graph of type `t`: `m` is a perfect matching of it of
+    minimum total weight (`distance`; it is 0 between virtual nodes, as in `planarWeightedEdges`) -/
+def MinWeightPMPlanar (R C : Int) (t : Bool) (ds : List Idx2) (m : List (Idx2 × Idx2)) : Prop :=
+  isPerfectMatchingOfGraph (planarNodes R C t ds) (planarEdges R C t ds) m = true ∧
+  ∀ m', isPerfectMatchingOfGraph (planarNodes R C t ds) (planarEdges R C t ds) m' = true →
+    cost (Dec.distT R C) m ≤ cost (Dec.distT R C) m'
+
+/-- the X- (Z-) component of the planar MWPM recovery is no heavier than that of the error, for any
+    minimum-weight perfect matchings — `ChainBound` PROVED, not assumed -/
+theorem planar_chain_bound (R C : Int) (hR : 2 ≤ R) (hC : 2 ≤ C)
+    (h_path_syndrome : PlanarL.Spec R C)
+    (h_path_weight : ∀ a b, PlanarL.Ok R C a b → bsfWt (PlanarL.pathT R C a b) ≤ Dec.distT R C a b)
+    (e : BVec) (he : e.length = 2 * PlanarL.nq R C)
+    (mP mD : List (Idx2 × Idx2))
+    (h_minP : MinWeightPMPlanar R C true (planarDefects R C (synd (Planar.stabilizers R C) e) true) mP)
+    (h_minD : MinWeightPMPlanar R C false (planarDefects R C (synd (Planar.stabilizers R C) e) false) mD) :
+    ∃ r, planarMwpmRecovery R C mP mD = .ok r ∧ r.length = 2 * PlanarL.nq R C ∧
+      synd (Planar.stabilizers R C) r = synd (Planar.stabilizers R C) e ∧
+      ChainBound (PlanarL.nq R C) (xPart r) (xPart e) ∧
+      ChainBound (PlanarL.nq R C) (zPart r) (zPart e) := by
+  obtain ⟨MP, hMP, hcP⟩ := ChainPlanar.chain_matching_planar R C hR hC h_path_syndrome true e he
+  obtain ⟨MD, hMD, hcD⟩ := ChainPlanar.chain_matching_planar R C hR hC h_path_syndrome false e he
+  have hslen : (synd (Planar.stabilizers R C) e).length = (Planar.plaquetteIndices R C).length := by
+    rw [synd_length, PlanarL.stabilizers_plaqs]
+  obtain ⟨r, hrec, hrlen, hrs⟩ := C02.planar_mwpm_syndrome R C h_path_syndrome _ hslen mP mD h_minP.1 h_minD.1
+  have hokP := PlanarL.pm_ok R C h_path_syndrome _ true mP h_minP.1
+  have hokD := PlanarL.pm_ok R C h_path_syndrome _ false mD h_minD.1
+  have htype : ∀ (t : Bool) (m : List (Idx2 × Idx2)),
+      isPerfectMatchingOfGraph (planarNodes R C t (planarDefects R C (synd (Planar.stabilizers R C) e) t))
+        (planarEdges R C t (planarDefects R C (synd (Planar.stabilizers R C) e) t)) m = true →
+      ∀ ab ∈ m, Planar.isPrimal ab.1.1 ab.1.2 = t := by
+    intro t m hm ab hab
+    have hds := fun d hd => PlanarL.defects_real R C h_path_syndrome (synd (Planar.stabilizers R C) e) t d hd
+    have h1 := pm_ends _ _ _ hm ab.1 (by unfold ends; exact List.mem_flatMap.mpr ⟨ab, hab, by simp⟩)
+    unfold planarNodes at h1
+    rcases List.mem_append.mp h1 with h | h
+    · exact (hds _ h).2
+    · exact (PlanarL.vnodes_out R C h_path_syndrome t _ hds _ h).2
+  have hf : PlanarFlattenBound R C := fun r c hb hs => Planar.flatten_toNat_lt R C r c hR hC hs hb
+  obtain ⟨vp, vd, evp, evd, hx, hz, hzp, hxd⟩ := mwpm_split_planar R C hf mP mD
+    (htype true mP h_minP.1) (htype false mD h_minD.1) r hrec
+  have hpath : ∀ (m : List (Idx2 × Idx2)), (∀ x ∈ m, PlanarL.Ok R C x.1 x.2) →
+      ∀ x ∈ m, ∃ w, Planar.path R C (Planar.identity R C) x.1 x.2 = .ok w := by
+    intro m hm x hx
+    obtain ⟨w, hw, _⟩ := PlanarL.ok_path R C h_path_syndrome x.1 x.2 (hm x hx)
+    exact ⟨w, hw⟩
+  have evp' := PlanarL.applyMates_eq R C mP (hpath mP hokP)
+  have evd' := PlanarL.applyMates_eq R C mD (hpath mD hokD)
+  rw [evp] at evp'
+  rw [evd] at evd'
+  injection evp' with evp'
+  injection evd' with evd'
+  have hid : Planar.identity R C = zeros (2 * PlanarL.nq R C) := rfl
+  refine ⟨r, hrec, hrlen, hrs, ?_, ?_⟩
+  · refine chainBound_of_pairs (PlanarL.nq R C) mP (fun x => PlanarL.pathT R C x.1 x.2)
+      (fun x => Dec.distT R C x.1 x.2) (cost (Dec.distT R C) MP) _ _ ?_
+      (fun x _ => PlanarL.pathT_length R C _ _) (fun x hx => h_path_weight _ _ (hokP x hx))
+      (h_minP.2 MP hMP) hcP
+    rw [← evp']
+    exact xPart_eq_of_halves _ r vp hrlen hx (by rw [hzp, hid, zHalf_zeros_two_mul])
+  · refine chainBound_of_pairs (PlanarL.nq R C) mD (fun x => PlanarL.pathT R C x.1 x.2)
+      (fun x => Dec.distT R C x.1 x.2) (cost (Dec.distT R C) MD) _ _ ?_
+      (fun x _ => PlanarL.pathT_length R C _ _) (fun x hx => h_path_weight _ _ (hokD x hx))
+      (h_minD.2 MD hMD) hcD
+    rw [← evd']
+    exact zPart_eq_of_halves _ r vd hrlen hz (by rw [hxd, hid, xHalf_zeros_two_mul])
+
+/-- **planar_mwpm_corrects**: for ALL sizes R, C ≥ 2, every error `e` whose X-component and
+    Z-component EACH have weight `≤ t = ⌊(d−1)/2⌋` is corrected by the modelled planar MWPM decoder,
+    for ANY minimum-weight perfect matchings `mP`, `mD` of the two modelled graphs (primal / dual
+    defects of the syndrome of `e`, nearest virtual plaquettes, extra node): the recovery exists,
+    reproduces the syndrome, and `recovery ⊕ e` commutes with all stabilizers and all logicals `L`.
+    Hypotheses = facts of other properties: C15 (`h_path_syndrome`, `h_path_weight`), C07 (`h_css`),
+    C08 (`h_distance`, with the code's `d = min R C` when C08 provides it), C13 (`h_minP`, `h_minD`). -/
+theorem planar_mwpm_corrects (R C : Int) (hR : 2 ≤ R) (hC : 2 ≤ C)
+    (h_path_syndrome : PlanarL.Spec R C)
+    (h_path_weight : ∀ a b, PlanarL.Ok R C a b → bsfWt (PlanarL.pathT R C a b) ≤ Dec.distT R C a b)
+    (h_css : IsCSS (Planar.stabilizers R C))
+    (L : List BVec) (hL : ∀ row ∈ L, row.length = 2 * PlanarL.nq R C)
+    (d : Nat) (hd1 : 1 ≤ d)
+    (h_distance : DistHyp (Planar.stabilizers R C) L (PlanarL.nq R C) d)
+    (e : BVec) (he : e.length = 2 * PlanarL.nq R C)
+    (heX : bsfWt (xPart e) ≤ (d - 1) / 2) (heZ : bsfWt (zPart e) ≤ (d - 1) / 2)
+    (mP mD : List (Idx2 × Idx2))
+    (h_minP : MinWeightPMPlanar R C true (planarDefects R C (synd (Planar.stabilizers R C) e) true) mP)
+    (h_minD : MinWeightPMPlanar R C false (planarDefects R C (synd (Planar.stabilizers R C) e) false) mD) :
+    ∃ r, planarMwpmRecovery R C mP mD = .ok r ∧
+      synd (Planar.stabilizers R C) r = synd (Planar.stabilizers R C) e ∧
+      bsfWt (xPart r) ≤ bsfWt (xPart e) ∧ bsfWt (zPart r) ≤ bsfWt (zPart e) ∧
+      corrected (Planar.stabilizers R C) L e r = true := by
+  obtain ⟨r, hrec, hrlen, hrs, hX, hZ⟩ :=
+    planar_chain_bound R C hR hC h_path_syndrome h_path_weight e he mP mD h_minP h_minD
+  exact ⟨r, hrec, hrs, chainBound_le _ _ _ hX, chainBound_le _ _ _ hZ,
+    mwpm_corrects_of_chain_bound_partial _ L _ d (PlanarL.stabilizers_length R C) hL h_css h_distance hd1
+      e r he hrlen hrs heX heZ hX hZ⟩
+
+/-- the same for `planarDecodeWith` (Props/C14/Mwpm.lean): the decoder with the matching routine as a
+    parameter — `mtP` / `mtD` map the defect list of one type to the mates returned for its graph; if
+    they return minimum-weight perfect matchings of the modelled graphs, every error within `t` per
+    component is corrected -/
+theorem planar_decode_corrects (R C : Int) (hR : 2 ≤ R) (hC : 2 ≤ C)
+    (h_path_syndrome : PlanarL.Spec R C)
+    (h_path_weight : ∀ a b, PlanarL.Ok R C a b → bsfWt (PlanarL.pathT R C a b) ≤ Dec.distT R C a b)
+    (h_css : IsCSS (Planar.stabilizers R C))
+    (L : List BVec) (hL : ∀ row ∈ L, row.length = 2 * PlanarL.nq R C)
+    (d : Nat) (hd1 : 1 ≤ d)
+    (h_distance : DistHyp (Planar.stabilizers R C) L (PlanarL.nq R C) d)
+    (mtP mtD : List Idx2 → List (Idx2 × Idx2))
+    (h_minP : ∀ ds, MinWeightPMPlanar R C true ds (mtP ds))
+    (h_minD : ∀ ds, MinWeightPMPlanar R C false ds (mtD ds))
+    (e : BVec) (he : e.length = 2 * PlanarL.nq R C)
+    (heX : bsfWt (xPart e) ≤ (d - 1) / 2) (heZ : bsfWt (zPart e) ≤ (d - 1) / 2) :
+    ∃ r, planarDecodeWith R C mtP mtD (synd (Planar.stabilizers R C) e) = .ok r ∧
+      corrected (Planar.stabilizers R C) L e r = true := by
+  have e1 : ((Planar.syndromeToPlaquettes R C (synd (Planar.stabilizers R C) e)).filter
+      fun i => Planar.isPrimal i.1 i.2) = planarDefects R C (synd (Planar.stabilizers R C) e) true := by
+    unfold planarDefects
+    apply List.filter_congr
+    intro x _; simp
+  have e2 : ((Planar.syndromeToPlaquettes R C (synd (Planar.stabilizers R C) e)).filter
+      fun i => Planar.isDual i.1 i.2) = planarDefects R C (synd (Planar.stabilizers R C) e) false := by
+    unfold planarDefects
+    apply List.filter_congr
+    intro x _; simp [Planar.isDual]
+  obtain ⟨r, hrec, _, _, _, hcor⟩ := planar_mwpm_corrects R C hR hC h_path_syndrome h_path_weight h_css L hL d hd1
+    h_distance e he heX heZ _ _ (h_minP _) (h_minD _)
+  refine ⟨r, ?_, hcor⟩
+  unfold planarDecodeWith
+  simp only
+  rw [e1, e2]
+  exact hrec
+
 /-! ### non-vacuity and tiny-instance tests -/
 
 /-- generic lemma, path 0–1–2–3 with the chord 1–3 and `dist = |i − j|`: odd vertices {0, 1} -/
@@ -249,6 +426,43 @@ example :
     cost (toricDistT 3 3) m0 ≤ bsfWt (xPart e33) ∧ cost (toricDistT 3 3) m1 ≤ bsfWt (zPart e33) ∧
     (toricMwpmRecovery 3 3 m0 m1).toOption.map
       (corrected (Toric.stabilizers 3 3) (Toric.logicalXs 3 3 ++ Toric.logicalZs 3 3) e33) = some true := by
+  decide +kernel
+
+/-- planar: a qubit of either parity is an edge between adjacent plaquettes of either type; boundary
+    qubits have a virtual endpoint -/
+example : ChainPlanar.edgeP true (0, 2) = ((-1, 2), (1, 2)) ∧ ChainPlanar.edgeP true (1, 3) = ((1, 2), (1, 4)) ∧
+    ChainPlanar.edgeP false (0, 0) = ((0, -1), (0, 1)) ∧ ChainPlanar.edgeP false (3, 1) = ((2, 1), (4, 1)) ∧
+    TJoin.pd (ChainPlanar.rho 3 3 true) (ChainPlanar.bdP 3 3 true) ChainPlanar.dist2 (-1, 2) (1, 2) = 1 ∧
+    (Planar.path 3 3 (Planar.identity 3 3) (-1, 2) (1, 2)).toOption =
+      some (Planar.site 3 3 P1.X (Planar.identity 3 3) (0, 2)) := by decide +kernel
+
+/-- the error X(0,0) Z(2,2) Y(1,3) on the 3×3 planar code -/
+private def p33 : BVec :=
+  Planar.site 3 3 P1.Y (Planar.site 3 3 P1.Z (Planar.site 3 3 P1.X (Planar.identity 3 3) (0, 0)) (2, 2)) (1, 3)
+
+/-- its chains have as many edges as the components have weight, and the defects of each type are
+    exactly the in-lattice plaquettes of that type of odd degree in the chain of that type -/
+example : (ChainPlanar.chainEdgesP 3 3 true p33).length = 2 ∧ bsfWt (xPart p33) = 2 ∧
+    (ChainPlanar.chainEdgesP 3 3 false p33).length = 2 ∧ bsfWt (zPart p33) = 2 ∧
+    (∀ t ∈ [true, false], ∀ p ∈ Planar.plaquetteIndices 3 3,
+      decide (p ∈ planarDefects 3 3 (synd (Planar.stabilizers 3 3) p33) t) =
+        (ChainPlanar.rho 3 3 t p && decide (deg (ChainPlanar.chainEdgesP 3 3 t p33) p % 2 = 1))) := by
+  decide +kernel
+
+/-- the matchings networkx returned for that syndrome (C02 harness record) are perfect matchings of the
+    modelled graphs (virtual–virtual pairs at weight 0), no heavier than the components, and the
+    recovery corrects `p33` -/
+example :
+    let s := synd (Planar.stabilizers 3 3) p33
+    let mP : List (Idx2 × Idx2) := [((-1, 4), (1, 4)), ((1, 2), (1, 0)), ((-1, 0), (-1, 2))]
+    let mD : List (Idx2 × Idx2) := [((0, 5), (2, -1)), ((2, 1), (0, 3))]
+    isPerfectMatchingOfGraph (planarNodes 3 3 true (planarDefects 3 3 s true))
+      (planarEdges 3 3 true (planarDefects 3 3 s true)) mP = true ∧
+    isPerfectMatchingOfGraph (planarNodes 3 3 false (planarDefects 3 3 s false))
+      (planarEdges 3 3 false (planarDefects 3 3 s false)) mD = true ∧
+    cost (Dec.distT 3 3) mP ≤ bsfWt (xPart p33) ∧ cost (Dec.distT 3 3) mD ≤ bsfWt (zPart p33) ∧
+    (planarMwpmRecovery 3 3 mP mD).toOption.map
+      (corrected (Planar.stabilizers 3 3) [Planar.logicalX 3 3, Planar.logicalZ 3 3] p33) = some true := by
   decide +kernel
 
 end Qec.C14
